@@ -6,6 +6,17 @@ COMMON_NOTE = (
     " Numerical behaviour is NOT decided."
 )
 
-META: dict[str, dict[str, str]] = {}
+META: dict[str, dict[str, str]] = {
+    "C14": {
+        "level": "Decides the structural necessary conditions of the substitution/equality/folding laws for every @unevaluated class (enumerated from the AST): reconstruction hooks read arguments shallowly and completely, self.args unpackings match the field lists, the hash hook covers non-SymPy fields, folded classes print through their unfolding. Universal over argument shapes because it speaks about the hook code, not about sampled instances. Does not decide the laws for arbitrary values.",
+        "note": "External-API table: dataclasses.astuple/asdict/copy.deepcopy are deep; Basic.subs/xreplace dispatch to _eval_subs/_xreplace." + COMMON_NOTE,
+        "technique": "static analysis: AST model of decorator-installed hooks, call-graph reachability to deep-copy sources, arity/position check of self.args unpackings",
+    },
+    "C15": {
+        "level": "Decides that what is handed to pickle reconstructs the object: __getnewargs__ of every decorated class is shallow and complete, hand-written classes' __new__ accepts their own args, deprecated base returns matching (args, kwargs), model classes have no custom pickle hooks. Does not decide equality after an actual round trip.",
+        "note": "Pickle protocol semantics (cls.__new__(cls, *__getnewargs__())) and Basic.__getnewargs__ = args are trusted." + COMMON_NOTE,
+        "technique": "static analysis: hook resolution through import aliases, arity comparison of Expr.__new__ calls against __new__ signatures",
+    },
+}
 
 NOT_APPLICABLE: dict[str, str] = {}
